@@ -115,6 +115,38 @@ func randomWorkload(en *Env, cfg h.Cfg, nkeys int, o genOpts, reopenCfg func() h
 			if !e.Dead && len(recent) > 0 && r.Intn(2) == 0 {
 				e.Put(1+r.Intn(nkeys), recent[r.Intn(len(recent))])
 			}
+		case c < 81 && o.batches && o.restarts:
+			// small batches and plain writes on the same keys back to back, nothing observed in between (batches created
+			// within one millisecond may carry the same id), then a restart
+			for j := 0; j < 3 && !e.Dead; j++ {
+				bk := 1 + r.Intn(nkeys)
+				e.NewBatch(false)
+				e.BPut(bk, newVal())
+				if r.Intn(2) == 0 {
+					e.BPut(1+r.Intn(nkeys), newVal())
+				}
+				e.Commit()
+				if e.Dead {
+					break
+				}
+				if r.Intn(2) == 0 {
+					e.Put(bk, newVal())
+				} else {
+					e.Delete(bk)
+				}
+			}
+			if !e.Dead {
+				e.NewBatch(false)
+				e.BPut(1+r.Intn(nkeys), newVal())
+				e.Commit()
+			}
+			if e.Dead {
+				return
+			}
+			e.Dump()
+			if e.Close() != "ok" || e.Open(reopenCfg()) != "ok" {
+				return
+			}
 		case c < 83:
 			e.Sync()
 		case c < 88 && o.merges:
